@@ -471,6 +471,11 @@ template <class TReader> class CMsgPackReadObjectScope;
 class CMsgPackScopeBase : public MsgPackArchiveTraits
 {
 public:
+	/// <summary>
+	/// The maximum number of items that is reported as estimated size (containers grow further when data really exists).
+	/// </summary>
+	static constexpr size_t MaxEstimatedSize = 1024;
+
 	CMsgPackScopeBase(CMsgPackScopeBase* parentScope = nullptr) noexcept
 		: mParentScope(parentScope)
 	{ }
@@ -543,7 +548,8 @@ public:
 	/// </summary>
 	[[nodiscard]] size_t GetEstimatedSize() const noexcept
 	{
-		return mSize;
+		// The declared size comes from the input and is not yet confirmed by data, so it's limited for safe preallocation
+		return mSize < MaxEstimatedSize ? mSize : MaxEstimatedSize;
 	}
 
 	/// <summary>
@@ -609,7 +615,8 @@ public:
 	/// </summary>
 	[[nodiscard]] size_t GetEstimatedSize() const noexcept
 	{
-		return mSize;
+		// The declared size comes from the input and is not yet confirmed by data, so it's limited for safe preallocation
+		return mSize < MaxEstimatedSize ? mSize : MaxEstimatedSize;
 	}
 
 	/// <summary>
@@ -724,7 +731,8 @@ public:
 	/// </summary>
 	[[nodiscard]] size_t GetEstimatedSize() const noexcept
 	{
-		return mSize;
+		// The declared size comes from the input and is not yet confirmed by data, so it's limited for safe preallocation
+		return mSize < MaxEstimatedSize ? mSize : MaxEstimatedSize;
 	}
 
 	/// <summary>
